@@ -194,6 +194,11 @@ func run(c *rig.Ctx) {
 			default: // register write
 				a := uint16(0xff10 + r.Intn(0x16))
 				v := r.U8()
+				if (a == 0xff12 || a == 0xff17 || a == 0xff21) && r.Chance(1, 2) {
+					// envelope registers: the values whose stores real programs use for volume
+					// tricks (period 0, direction flips) read back like any other
+					v = r.Pick8([]uint8{0x08, 0xf8, 0x18, 0x88, 0x00, 0x80, 0x09, 0xf0, 0x07})
+				}
 				on3 := ch3On()
 				m.Mem.Write(a, v)
 				ref.write(a, v, on3)
